@@ -26,12 +26,16 @@ type params struct {
 	LateReply bool // an application request gives up (200 ms) and its answer arrives 1.5 s later; the pongs stay prompt
 	Burst    int  // the broker sends this many pings at once while the client's transport write is stalled (back pressure)
 	HandlerStall bool // after the redial the application's OnReconnected handler takes several keep-alive rounds while the (healthy) broker forwards ten calls
+	Unread   int // a downstream the application has given up (close request unanswered) still receives this many chunks at once (more than the wire connection queues) while the broker keeps answering pings
 	P        int
 }
 
 func (p params) name() string {
 	if p.HandlerStall {
 		return fmt.Sprintf("i%v/t%v/k%d/%s/handlerstall/P%d", p.Interval, p.Timeout, p.K, p.Mode, p.P)
+	}
+	if p.Unread > 0 {
+		return fmt.Sprintf("i%v/t%v/k%d/%s/unread%d/P%d", p.Interval, p.Timeout, p.K, p.Mode, p.Unread, p.P)
 	}
 	if p.LateReply {
 		return fmt.Sprintf("i%v/t%v/k%d/%s/traffic%v/latereply/P%d", p.Interval, p.Timeout, p.K, p.Mode, p.Traffic, p.P)
@@ -89,6 +93,8 @@ func scenarios(tier string) []vlib.Scenario {
 	}
 	add(params{Interval: time.Second, Timeout: time.Second, K: -1, Mode: "prompt", Burst: 12, P: 1})
 	// a slow application handler after the redial must not cost the healthy new connection
+	// application traffic the application does not consume must not starve the keep-alive of a live peer
+	add(params{Interval: time.Second, Timeout: time.Second, K: -1, Mode: "prompt", Unread: 1100})
 	add(params{Interval: time.Second, Timeout: time.Second, K: 1, Mode: "silent", HandlerStall: true})
 	add(params{Interval: time.Second, Timeout: time.Second, K: 1, Mode: "silent", HandlerStall: true, P: 1})
 	if tier == "thorough" {
@@ -133,6 +139,13 @@ type world struct {
 func (w *world) script() *sim.Script {
 	s := &sim.Script{}
 	_, timeout := w.p.eff()
+	if w.p.Unread > 0 {
+		// the broker never answers the close request of the downstream and keeps forwarding chunks to it
+		s.OnMessage = func(b *sim.Broker, c *sim.BConn, m message.Message) bool {
+			_, ok := m.(*message.DownstreamCloseRequest)
+			return ok
+		}
+	}
 	if w.p.LateReply {
 		s.OnMessage = func(b *sim.Broker, c *sim.BConn, m message.Message) bool {
 			if _, ok := m.(*message.UpstreamMetadata); ok {
@@ -264,6 +277,29 @@ func (w *world) main() {
 			}
 			vsched.Quiesce()
 			c.Link.HoldClientWrites = false
+		}
+	}
+	if w.p.Unread > 0 {
+		sctx, scancel := kit.Ctx(5 * time.Second)
+		d, err := w.OpenDown(sctx, "d0", kit.Filter("src"))
+		scancel()
+		if err == nil {
+			// the application gives the stream up (its close request stays unanswered): from here on nobody drains
+			// what the wire connection queues for the stream's alias
+			cctx, ccancel := kit.Ctx(300 * time.Millisecond)
+			d.D.Close(cctx)
+			ccancel()
+		}
+		if c := w.B.Live(); err == nil && c != nil && len(w.B.Downs) > 0 {
+			for i := 0; i < w.p.Unread; i++ {
+				w.B.Send(c, &message.DownstreamChunk{
+					StreamIDAlias:   w.B.Downs[0].Alias,
+					UpstreamOrAlias: &message.UpstreamInfo{SessionID: "s", SourceNodeID: "src", StreamID: sim.StreamUUID('x', 1)},
+					StreamChunk: &message.StreamChunk{SequenceNumber: uint32(i + 1), DataPointGroups: []*message.DataPointGroup{
+						{DataIDOrAlias: &message.DataID{Name: "a", Type: "t"}, DataPoints: []*message.DataPoint{{ElapsedTime: 1, Payload: []byte("unread")}}},
+					}},
+				})
+			}
 		}
 	}
 	vsched.Sleep(w.horizon, "h:horizon")
